@@ -80,7 +80,7 @@ def _build_probes():
     return {'mem': b, 'text': bt}
 
 
-N_T, N_B, N_P = 40, 4, 12
+N_T, N_B, N_P, N_C = 40, 4, 12, 4
 IDLE_PKGS = ('compress/', 'vendor/golang.org/x/text/', 'vendor/golang.org/x/crypto/', 'crypto/internal/edwards25519', 'crypto/elliptic',
              'encoding/asn1', 'encoding/pem', 'math/big.nat', 'crypto/x509', 'text/tabwriter', 'container/')
 PKG = 'github.com/tencent/goom/internal/patch.'
@@ -104,6 +104,9 @@ def gen_targets_go():
         fn(f'zzC14B{k}', 50 + 7 * k)
     for k in range(N_P):
         fn(f'zzC14P{k:02d}', 150 + k % 5)
+    for k in range(N_C):       # callers: the first CALL of zzC14C<k> goes to zzC14T<20+k>
+        names.append(f'zzC14C{k}')
+        out.append(f'//go:noinline\nfunc zzC14C{k}(a, b int) int {{ return zzC14T{20 + k}(a, b) + {k + 1} }}')
     out.append('var zzC14Funcs = map[string]interface{}{' + ', '.join(f'"{n}": {n}' for n in names) + '}')
     return '\n'.join(out) + '\n'
 
@@ -480,7 +483,7 @@ def gen_text_ops(fs, tier, rng):
         for b in (bigs if tier == 'thorough' else [bigs[j % len(bigs)]]):
             ops.append(f"c14.tramp name={b['name']} tramp={p['name']}")
     # a placeholder of exactly N code bytes with no padding behind it and a neighbour function right after (private mapping)
-    for n in (16, 24, 32, 48, 64, 128):
+    for n in (16, 24, 32, 48, 64, 80, 96, 128):
         for b in (bigs[:2] if tier == 'quick' else bigs):
             ops.append(f"c14.tramp name={b['name']} mph={n}")
     for n in (4, 8, 12, 20, 40):
@@ -563,7 +566,10 @@ def oracle_text(op, obs, ph):
     tramp = op.startswith('c14.tramp')
     if tramp and int(kv.get('stray_dist', '0')):
         opkv = dict(t.split('=', 1) for t in op.split() if '=' in t)
-        pre = 'KNOWN:placeholder-bound-overrun:' if ('mph' in opkv and opkv.get('pad', '0') == '0' and int(kv['trampsize']) > int(kv['trampdist'])) else ''
+        # the recorded finding is: the RELOCATED CODE (prologue <= 13+14 bytes, jump-back <= 14) runs over an exact-fill body;
+        # anything written further than that is something else
+        pre = 'KNOWN:placeholder-bound-overrun:' if ('mph' in opkv and opkv.get('pad', '0') == '0' and int(kv['trampsize']) > int(kv['trampdist'])
+                                                      and int(kv.get('mph_hi', '0')) <= 41) else ''
         return pre + (f'{kv["stray_dist"]} byte(s) beyond the placeholder\'s own body changed (body = distance to the next symbol {kv["trampdist"]}; '
                 f'goom bounded the write by its own scan, {kv["trampsize"]} bytes)')
     opkv = dict(t.split('=', 1) for t in op.split() if '=' in t)
@@ -650,10 +656,16 @@ def gen_hist_ops(fs, tier, rng):
     cands = [by[PKG + f'zzC14T{k:02d}'] for k in range(N_T) if PKG + f'zzC14T{k:02d}' in by]
     cands = [f for f in cands if f['cls'] == 'nil' and f['dist'] >= 32 and not f['first'].startswith('90') and f['gsize'] <= f['dist']]
     small = [f for f in cands if f['dist'] <= 256]
-    pages = sorted({f['addr'] // 4096 for f in cands})
+    callers = [(by[PKG + f'zzC14C{k}'], by[PKG + f'zzC14T{20 + k}']) for k in range(N_C)
+               if PKG + f'zzC14C{k}' in by and by[PKG + f'zzC14T{20 + k}'] in cands]
+    pages = sorted({f['addr'] // 4096 for f in cands} | {c['addr'] // 4096 for c, _ in callers})
 
-    def T(f):
-        return f"T:{pages.index(f['addr'] // 4096)}:{f['addr'] % 4096}:{f['gsize']}:{f['first']}:{f['name']}"
+    def T(f, kind='T'):
+        return f"{kind}:{pages.index(f['addr'] // 4096)}:{f['addr'] % 4096}:{f['gsize']}:{f['first']}:{f['name']}"
+
+    def S(e, p):
+        img = padded_func(e, p)
+        return f"S:{e}:{p}:{head_scan(img)}:{img[:13].hex()}:private"
 
     def M(f, off):
         return f"M:{off}:64:{f['first']}:{f['name']}"
@@ -666,6 +678,13 @@ def gen_hist_ops(fs, tier, rng):
     hist([T(a), M(d, 100)], ['patch.0', 'apply.0', 'patch.1', 'apply.1', 'unmap.1', 'unpatch.1', 'unpatchfn.1', 'unpatch.0'])
     hist([T(a), T(b), T(c), M(d, 2048)], ['patch.0', 'apply.0', 'patch.1', 'apply.1', 'patch.2', 'apply.2', 'patch.3', 'apply.3', 'unmap.3', 'unpatchall'])
     hist([T(a), T(b), M(d, 64)], ['patch.0', 'apply.0', 'patch.1', 'apply.1', 'patch.2', 'apply.2', 'unpatchall'])
+    # retry after a refusal: a function whose slot cannot hold the jump stays refused however often it is tried
+    for e, p in ((8, 1), (4, 3), (1, 1), (11, 1), (12, 2), (5, 8)):
+        hist([S(e, p), T(a)], ['patch.0', 'patch.0', 'apply.0', 'unpatch.0', 'patch.1', 'apply.1', 'patch.0', 'apply.0', 'restore.0', 'unpatchfn.0', 'patch.0', 'unpatchall'])
+    # removing the mock of a function that carries none must not touch anything — also when its first CALL goes to a mocked function
+    for cf, tf in callers[:2 if tier == 'quick' else len(callers)]:
+        hist([T(cf, 'C'), T(tf)], ['patch.1', 'apply.1', 'unpatchfn.0', 'unpatchfn.0', 'unpatch.1', 'restore.1', 'unpatchfn.0', 'unpatchfn.1', 'unpatchfn.0', 'unpatchall'])
+        hist([T(cf, 'C'), T(tf), T(a)], ['unpatchfn.0', 'patch.0', 'apply.0', 'patch.1', 'apply.1', 'unpatchfn.0', 'unpatchfn.0', 'patch.2', 'apply.2', 'unpatchfn.1', 'unpatchall'])
     # Restore, re-patch of a patched target, Unpatch twice, UnpatchAll with nothing / twice
     hist([T(a)], ['patch.0', 'apply.0', 'unpatch.0', 'restore.0', 'unpatch.0', 'unpatch.0', 'restore.0', 'unpatchall', 'unpatchall'])
     hist([T(a), T(b)], ['patch.0', 'apply.0', 'patch.0', 'apply.0', 'patch.1', 'patch.1', 'apply.1', 'unpatchfn.0', 'unpatchfn.0', 'restore.0', 'unpatchall', 'unpatch.0'])
@@ -679,8 +698,19 @@ def gen_hist_ops(fs, tier, rng):
         k = 1 + rng.below(4)
         tg, used = [], set()
         for i in range(k):
-            if rng.below(5) == 0:
+            if len(tg) >= k:
+                break
+            r5 = rng.below(10)
+            if r5 < 2:
                 tg.append(M(small[rng.below(len(small))], rng.choice([0, 32, 100, 2048, 4000, 4064, 4083, 4084, 4090, 4095])))
+            elif r5 == 2:
+                tg.append(S(rng.choice([1, 4, 8, 11, 12, 13, 14, 20]), 1 + rng.below(15)))
+            elif r5 == 3 and callers and not used:
+                cf, tf = callers[rng.below(len(callers))]
+                used.update((cf['name'], tf['name']))
+                tg.append(T(cf, 'C'))
+                if i + 1 < k:
+                    tg.append(T(tf))
             else:
                 f = cands[rng.below(len(cands))]
                 while f['name'] in used:
@@ -693,12 +723,12 @@ def gen_hist_ops(fs, tier, rng):
             r = rng.below(20)
             if r == 0:
                 steps.append('unpatchall')
-            elif r == 1 and any(t.startswith('M') for t in tg):
-                i = rng.choice([i for i, t in enumerate(tg) if t.startswith('M')])
+            elif r == 1 and any(t[0] in 'MS' for t in tg):
+                i = rng.choice([i for i, t in enumerate(tg) if t[0] in 'MS'])
                 steps.append(f'unmap.{i}')
                 unmapped.add(i)
             else:
-                i = rng.below(k)
+                i = rng.below(len(tg))
                 w = rng.choice(words)
                 if i in unmapped and w == 'patch':
                     w = 'unpatch'        # Patch would read the entry bytes of unmapped memory: a crash by construction, not goom's doing
@@ -754,17 +784,19 @@ def execute_hist(ops, bins, fs, tag='c14.hist'):
         allowed = set()
         for k, t in enumerate(tgs):
             f = t.split(':')
-            if f[0] == 'T':
+            if f[0] in ('T', 'C'):
                 pg = by[f[-1]]['addr'] // 4096
                 tpages[pg] = f't{f[1]}'
                 allowed.add(pg)
             else:
                 for j in range(3):
                     tpages[mb[k] // 4096 + j] = f'm{k}.{j}'
-                e = mb[k] + 4096 + int(f[1])
+                e = mb[k] + 4096 + (int(f[1]) if f[0] == 'M' else 0)
                 allowed |= pages_of(e, 13)
         label = lambda a: tpages.get(a // 4096, f'?{a:#x}')
         out_steps = []
+        short = {k for k, t in enumerate(tgs) if t[0] == 'S' and int(t.split(':')[1]) + int(t.split(':')[2]) < 13}
+        prev_vec = None
         ex = {int(t.split(':')[0]): dict(kv.split('=') for kv in t.split(':', 1)[1].split(',')) for t in extra.split() if t[0].isdigit()}
         for sn, tok in enumerate(cmp_part.split()):
             stp, _, rest = tok.partition('=')
@@ -775,6 +807,20 @@ def execute_hist(ops, bins, fs, tag='c14.hist'):
                 gs = sorted(gs)
             out_steps.append(f'{stp}={res}[{"".join(gs)}]{{{vec}')
             # ---- the property on the implementation, step by step
+            letters = vec.split(';')[0]
+            if not why[i] and '.' in stp and not stp.startswith('unmap') and prev_vec is not None:
+                k0 = int(stp.split('.')[1])
+                for k in range(min(len(letters), len(prev_vec))):
+                    if k != k0 and letters[k] != prev_vec[k] and tgs[k].split(':')[-1] != tgs[k0].split(':')[-1]:
+                        why[i] = (f'step {sn} ({stp}) addresses target {k0} but the entry bytes of target {k} changed ({prev_vec[k]} -> {letters[k]}): '
+                                  'an install/removal must write only at its own target\'s entry')
+            if not why[i]:
+                for k in short:
+                    if (stp == f'patch.{k}' and res == 'ok') or (k < len(letters) and letters[k] in 'j?'):
+                        t = tgs[k].split(':')
+                        why[i] = (f'step {sn} ({stp}): target {k} has a slot of {int(t[1]) + int(t[2])} bytes ({t[1]} code + {t[2]} padding, then its successor) — too short '
+                                  f'for the 13-byte jump — but was accepted/patched')
+            prev_vec = letters
             if why[i]:
                 continue
             e = ex.get(sn, {})
@@ -920,8 +966,9 @@ def run(tier):
     impl = impl + timpl + himpl + simpl
     model = (model + (tmodel or [None] * len(tops)) + (hmodel or [None] * len(hops)) + (smodel or [None] * len(sops))) if model is not None else None
     diffs = C.diff_streams(ops, impl, model) if model is not None else []
-    if model is None:
-        proof['failed'].append(('goomdrv', 'driver does not build: ' + str(perr)[-500:]))
+    if model is None or any(m is None for m in model):
+        proof['failed'].append(('goomdrv', 'driver does not build or did not answer every line: ' + str(perr)[-500:]))
+        proof['ok'] = False
     if not bad:
         if diffs:
             i, op, a, b = diffs[0]
@@ -940,6 +987,8 @@ def run(tier):
             'text lane ops': {k: sum(1 for o in tops if o.startswith(k)) for k in ('c14.install', 'c14.gen', 'c14.tramp')},
             'text lane outcomes': {}, 'history lane': {'histories': len(hops), 'steps': sum(len(o.split()) - 3 for o in hops),
                                                         'with a private code mapping (M target)': sum(1 for o in hops if 'M:' in o),
+                                                        'with a short padded function (S target)': sum(1 for o in hops if ' S:' in o or ',S:' in o),
+                                                        'with a caller of a mocked function (C target)': sum(1 for o in hops if ' C:' in o or ',C:' in o),
                                                         'with an unmap step': sum(1 for o in hops if ' unmap.' in o),
                                                         'entry straddling a page end': sum(1 for o in hops if any(t.startswith('M:') and int(t.split(':')[1]) > 4083 for t in o.split()[1].split(','))),
                                                         'step kinds': {w: sum(o.count(' ' + w) for o in hops) for w in ('patch', 'apply', 'unpatch.', 'restore', 'unpatchfn', 'unpatchall', 'unmap')},
